@@ -157,7 +157,7 @@ def step (line : String) : String :=
         let impl := probes.map (·.1)
         let mi := mSeen == impl
         -- oracle: the implementation's view is the brand-new view, and the released object is clean
-        let s := mFresh == impl && probes.all (fun p => p.2 &&& (Nat.xor (2^16 - 1) retainedAllowed) == 0)
+        let s := mFresh == impl && probes.all (fun p => p.2 &&& (Nat.xor (2^30 - 1) retainedAllowed) == 0)
         verdict id mi s "-" s!"{mSeen.length}"
       | _, _ => s!"{id} bad-case"
     | _ => s!"{id} bad-case"
